@@ -242,6 +242,34 @@ func c20Run(c *engine.Ctx) {
 			c20Exec(c, c20Case{Pts: line, Threshold: ref.F(t), Stride: 2 + (n+ti+2)%4})
 		}
 	})
+	// far beyond the quantifier's 200 points (the statement says "any coordinate sequence"): the
+	// same three shapes with 1000, 4097, 10001 (thorough 40000) points - a divided or blocked
+	// implementation shows at its seams
+	longNs := []int{1000, 4097, 10001}
+	if c.Thorough() {
+		longNs = append(longNs, 40000)
+	}
+	c.Parallel(len(longNs), func(k int) {
+		n := longNs[k]
+		zig := make([]ref.F, 0, 2*n)
+		walk := make([]ref.F, 0, 2*n)
+		line := make([]ref.F, 0, 2*n)
+		for i := 0; i < n; i++ {
+			y := float64(i % 2)
+			if i%1000 == 499 {
+				y = 3
+			}
+			zig = append(zig, ref.F(i), ref.F(y))
+			walk = append(walk, ref.F((i*7919)%101), ref.F((i*104729+i*i)%97))
+			line = append(line, ref.F(3*i), ref.F(-2*i))
+		}
+		for ti, t := range []float64{0, 0.5, 1, 2.5} {
+			c.Count("long_sequence_cases", 3)
+			c20Exec(c, c20Case{Pts: zig, Threshold: ref.F(t), Stride: 2 + (n+ti)%4})
+			c20Exec(c, c20Case{Pts: walk, Threshold: ref.F(t), Stride: 2 + (n+ti+1)%4})
+			c20Exec(c, c20Case{Pts: line, Threshold: ref.F(t), Stride: 2 + (n+ti+2)%4})
+		}
+	})
 	// deep interval stacks: damped zig-zags and inward spirals keep one interval pending per point
 	deepN := []int{100, 200}
 	for n := 20; n <= 70; n++ {
